@@ -118,5 +118,5 @@ func canonDiag(s string) string {
 	s = diagRes[0].ReplaceAllString(s, "$1(<msg>)")
 	s = diagRes[1].ReplaceAllString(s, "$1<msg>)")
 	s = diagRes[2].ReplaceAllString(s, "$1<msg>")
-	return s
+	return canonShape(s)
 }
